@@ -149,6 +149,70 @@ var c07Words = [][]rune{
 var c07Brackets = []rune("()[]{}<>«»“”‘’⟨⟩「」（）")
 var c07Neutrals = []rune{' ', ' ', ',', '.', '!', '-', ':', '/', '\t', 0x00A0, 0x1680, 0x3000, 0x200B, 0x2028, '"', '\''}
 var c07Separators = []rune{'\n', '\r', 0x2029, 0x0085, 0x001C}
+
+// what may stand between two paragraphs: the seven runes of bidi class B, CR LF, and VT / FF / LINE SEPARATOR which
+// look like line ends but are NOT paragraph separators for splitByBidi
+var c07ParaSeps = [][]rune{{'\n'}, {'\n'}, {'\r', '\n'}, {'\r', '\n'}, {'\r'}, {0x2029}, {0x0085}, {0x001C}, {0x001D}, {0x001E},
+	{0x000B}, {0x000C}, {0x2028}, {'\n', '\n'}, {'\n', '\r'}, {0x2029, '\n'}}
+
+// explicit directional formatting: LRE RLE PDF LRO RLO, LRI RLI FSI PDI, LRM RLM ALM
+var c07Controls = []rune{0x202A, 0x202B, 0x202C, 0x202D, 0x202E, 0x2066, 0x2067, 0x2068, 0x2069, 0x200E, 0x200F, 0x061C}
+
+// c07ParaText builds a text of several paragraphs, each with a direction mix of its own: a left-to-right, a
+// right-to-left and a digit vocabulary, brackets opened in one bidi run (or paragraph) and closed in another,
+// isolates and embeddings (also left open across a paragraph end).
+func c07ParaText(r *vh.Rand, maxLen int) []rune {
+	var t []rune
+	ltr := [][]rune{c07Words[0], c07Words[8], c07Words[5], c07Words[11]}
+	rtl := [][]rune{c07Words[1], c07Words[2]}
+	dig := [][]rune{c07Words[3], c07Words[4]}
+	word := func(vs [][]rune) {
+		w := vs[r.Intn(len(vs))]
+		for j := r.Range(1, 3); j > 0; j-- {
+			t = append(t, w[r.Intn(len(w))])
+		}
+	}
+	npar := r.Range(2, 5)
+	if r.Chance(10) {
+		t = append(t, c07ParaSeps[r.Intn(len(c07ParaSeps))]...) // the range starts with a separator
+	}
+	for p := 0; p < npar; p++ {
+		mix := r.Intn(4) // 0 mostly LTR, 1 mostly RTL, 2 even, 3 RTL with digits
+		for k := r.Range(0, 6); k > 0; k-- {
+			switch c := r.Intn(20); {
+			case c < 8:
+				switch {
+				case mix == 0 && r.Chance(75), mix == 2 && r.Bool(), mix == 1 && r.Chance(20), mix == 3 && r.Chance(10):
+					word(ltr)
+				default:
+					word(rtl)
+				}
+			case c < 10:
+				word(dig)
+			case c < 13:
+				t = append(t, c07Neutrals[r.Intn(len(c07Neutrals))])
+			case c < 15:
+				t = append(t, c07Brackets[2*r.Intn(3)]) // ( [ {
+			case c < 17:
+				t = append(t, c07Brackets[2*r.Intn(3)+1]) // ) ] }
+			case c < 19:
+				t = append(t, c07Controls[r.Intn(len(c07Controls))])
+			default:
+				t = append(t, c07Words[9][r.Intn(4)])
+			}
+		}
+		if p+1 < npar || r.Chance(35) { // 35%: the text ends with a separator
+			t = append(t, c07ParaSeps[r.Intn(len(c07ParaSeps))]...)
+		}
+	}
+	if len(t) == 0 {
+		t = []rune{'\n'}
+	}
+	if len(t) > maxLen {
+		t = t[:maxLen]
+	}
+	return t
+}
 var c07Langs = []string{"", "", "en", "fr", "ar", "he", "zh", "ja", "ko", "ru", "fr-FR", "xx-unknown", "tlh", "und", "fa", "zh-hant"}
 var c07Dirs = []uint8{0, 0, 1, 1, 2, 2, 3, 6, 14, 7, 15, 4, 12}
 
@@ -193,7 +257,12 @@ func c07Text(r *vh.Rand, maxLen int, seps bool) []rune {
 }
 
 func c07RandCall(r *vh.Rand, maxLen int) c07Call {
-	c := c07Call{Text: c07Text(r, maxLen, r.Chance(30))}
+	c := c07Call{}
+	if r.Chance(30) {
+		c.Text = c07ParaText(r, maxLen)
+	} else {
+		c.Text = c07Text(r, maxLen, r.Chance(30))
+	}
 	n := len(c.Text)
 	switch k := r.Intn(20); {
 	case k < 4:
@@ -240,6 +309,27 @@ func c07Gen(r *vh.Rand, tier string, n int, emit func(any)) {
 		}
 	}
 	rec(nil)
+	// exhaustive paragraph structures: all texts of length 1..4 over {a, alef, LF, CR} (length 1..3 when searching)
+	small = []rune{'a', 'א', '\n', '\r'}
+	maxSmall := 4
+	if tier == "search" {
+		maxSmall = 3
+	}
+	var rec2 func(t []rune)
+	rec2 = func(t []rune) {
+		if len(t) > 0 {
+			for _, d := range []uint8{0, 1} {
+				emit(c07Input{Call: c07Call{Text: append([]rune(nil), t...), Start: 0, End: len(t), Dir: d, Fm: 1, Size: 640}})
+			}
+		}
+		if len(t) == maxSmall {
+			return
+		}
+		for _, x := range small {
+			rec2(append(t, x))
+		}
+	}
+	rec2(nil)
 	for i := 0; i < n; i++ {
 		maxLen := 8
 		switch {
@@ -407,20 +497,12 @@ func c07Run(o *vh.Out, inAny any) {
 		ref[i] = 2
 	}
 	rtlPar := di.Direction(c.Dir).Progression() == di.TowardTopLeft
-	var bidiTerm = "None"
+	// golang.org/x/text as the model's function: for every paragraph of the range (a separator closes its paragraph)
+	// the string handed to SetString and what Order() answers for the default direction of this call
+	var xtab []string
+	xseen := map[string]bool{}
 	if c.Start < c.End && c.Start >= 0 && c.End <= len(c.Text) {
 		norm := []rune(string(c.Text[c.Start:c.End])) // invalid runes become U+FFFD, one for one
-		// the run list the model takes as its input: x/text paragraph by paragraph (a separator closes its paragraph),
-		// ends shifted to the range, neighbours with the same direction merged - what splitByBidi builds
-		var flatEnds []int
-		var flatDirs []bool
-		addRun := func(e int, rtl bool) {
-			if n := len(flatEnds); n > 0 && flatDirs[n-1] == rtl {
-				flatEnds[n-1] = e
-				return
-			}
-			flatEnds, flatDirs = append(flatEnds, e), append(flatDirs, rtl)
-		}
 		for a := 0; a < len(norm); {
 			b := a
 			for b < len(norm) && !c07IsB(norm[b]) {
@@ -430,10 +512,13 @@ func c07Run(o *vh.Out, inAny any) {
 				b++ // the separator closes the paragraph
 			}
 			ends, dirs, ok := c07Bidi(norm[a:b], rtlPar)
+			val := "None"
 			if ok {
+				el := make([]string, len(ends))
 				for k := range ends {
-					addRun(a+ends[k], dirs[k])
+					el[k] = vh.Tuple(vh.Zi(ends[k]), vh.Bool(dirs[k]))
 				}
+				val = vh.Some(vh.List(el))
 				prev := 0
 				for k, e := range ends {
 					for j := prev; j <= e && a+j < b; j++ {
@@ -447,17 +532,31 @@ func c07Run(o *vh.Out, inAny any) {
 					}
 					prev = e + 1
 				}
-			} else {
-				addRun(b-1, rtlPar) // no run from x/text: the paragraph as it is, in the caller's direction
+			}
+			if key := string(norm[a:b]); !xseen[key] {
+				xseen[key] = true
+				pr := make([]int, b-a)
+				for j := range pr {
+					pr[j] = int(norm[a+j])
+				}
+				xtab = append(xtab, vh.Tuple(vh.IntList(pr), val))
 			}
 			a = b
 		}
-		el := make([]string, len(flatEnds))
-		for k := range flatEnds {
-			el[k] = vh.Tuple(vh.Zi(flatEnds[k]), vh.Bool(flatDirs[k]))
-		}
-		bidiTerm = vh.Some(vh.List(el))
 	}
+	// the bidi step alone, on a fresh Segmenter
+	var bidiOut []string
+	func() {
+		defer func() {
+			if e := recover(); e != nil && panicked == nil {
+				panicked = e
+			}
+		}()
+		var seg2 shaping.Segmenter
+		for _, r := range seg2.VerifSplitByBidi(c07Input_(c, append([]rune(nil), c.Text...), nil)) {
+			bidiOut = append(bidiOut, vh.IntList([]int{r.RunStart, r.RunEnd, int(r.Direction)}))
+		}
+	}()
 	keys := []language.Script{0}
 	if c.Hint {
 		keys = scripts
@@ -474,7 +573,7 @@ func c07Run(o *vh.Out, inAny any) {
 		case 2:
 			f |= 4
 		}
-		if i >= c.Start && i < c.End && c07IsB([]rune(string([]rune{r}))[0]) {
+		if shaping.VerifIsParagraphSeparator(r) {
 			f |= 8
 		}
 		for j, s := range scripts {
@@ -511,7 +610,8 @@ func c07Run(o *vh.Out, inAny any) {
 	// the output scripts were printed as raw values; reprint them now that the script list is known
 	coq := vh.App("mkCase", vh.Z(int64(language.Common)), vh.Z(int64(language.Inherited)), vh.ZList(sl), vh.List(sinfo),
 		vh.Zi(langid), vh.List(obs), vh.Bool(c.Hint),
-		vh.IntList([]int{c.Start, c.End, int(c.Dir), c.FaceIn, c.Size, int(c.Script)}), bidiTerm, vh.List(runs))
+		vh.IntList([]int{c.Start, c.End, int(c.Dir), c.FaceIn, c.Size, int(c.Script)}), c07Runes(c.Text), vh.List(xtab),
+		vh.List(bidiOut), vh.List(runs))
 	key := ""
 	if nruns >= 2 {
 		key = coq
@@ -527,14 +627,30 @@ func c07Run(o *vh.Out, inAny any) {
 	if nruns < 4 {
 		runClass = fmt.Sprintf("runs=%d", nruns)
 	}
+	paraClass := "paragraphs>=4"
+	if len(xtab) < 4 {
+		paraClass = fmt.Sprintf("paragraphs=%d", len(xtab))
+	}
+	bidiClass := "bidiruns>=4"
+	if len(bidiOut) < 4 {
+		bidiClass = fmt.Sprintf("bidiruns=%d", len(bidiOut))
+	}
 	idx := o.Add(in, coq, key, lenClass, runClass, fmt.Sprintf("history=%d", len(in.History)), fmt.Sprintf("dir=%d", c.Dir),
-		fmt.Sprintf("hint=%v", c.Hint))
+		fmt.Sprintf("hint=%v", c.Hint), paraClass, bidiClass)
 	if panicked != nil {
 		o.Fail(idx, "panic", fmt.Sprint(panicked))
 	}
 	for _, f := range sweepFails {
 		o.Fail(idx, "rune-class", f)
 	}
+}
+
+func c07Runes(t []rune) string {
+	l := make([]int, len(t))
+	for i, r := range t {
+		l[i] = int(r)
+	}
+	return vh.IntList(l)
 }
 
 func c07Lang0(l string) language.Language {
